@@ -62,6 +62,19 @@ func bad_index_piecewise(b []byte, s *st) uint32 {
 	if len(b) < s.Size() { return 0 }
 	return uint32(b[4])
 }
+type ans struct{ err bool; t *uint32 }
+func (a ans) hasErr() bool { if a.err { return true }; return false }
+func ok_cond_nil(a ans) uint32 { if !a.hasErr() && a.t == nil { return 0 }; if !a.hasErr() { return *a.t }; return 1 }
+func bad_nil_cond(a ans) uint32 { if a.hasErr() && a.t == nil { return 0 }; if !a.hasErr() { return *a.t }; return 1 }
+func ok_rows(data []byte, fs int) byte {
+	if fs <= 0 || len(data)%fs != 0 { return 0 }
+	var rows [][]byte
+	for i := 0; i < len(data)/fs; i++ { off := i * fs; rows = append(rows, data[off:off+fs]) }
+	var x byte
+	for r := 0; r < len(rows); r++ { for m := 0; m < fs; m++ { x ^= rows[r][m] } }
+	return x
+}
+func bad_div_rows(data []byte, fs int) int { if len(data)%fs != 0 { return 0 }; return len(data) / fs }
 func bad_index_induction(b []byte, step int) byte {
 	var x byte
 	for i := 0; i < len(b); i++ { x = b[i]; i = i + step }
